@@ -1,0 +1,8 @@
+//go:build verif
+
+package tsi
+
+import "github.com/openGemini/openGemini/lib/util/lifted/vm/mergeset"
+
+// VerifC13Table returns the mergeset table of the index, for the C13 purge correspondence harness of /verif.
+func (idx *MergeSetIndex) VerifC13Table() *mergeset.Table { return idx.tb }
